@@ -1,11 +1,13 @@
 import MoneroModel.Drv.C14
 import MoneroModel.Drv.C18
 import MoneroModel.Drv.C20
+import MoneroModel.Drv.Codec
+import MoneroModel.Drv.C06
 /-! Line-protocol driver: one operation per input line, one result line per operation.
 Result line = `<model result>\t<spec result>` (`-` when the operation has no model / no spec side).
 Each property contributes a step function in `MoneroModel/Drv/Cxx.lean`. -/
 
-def steps : List Step := [Drv.stepC14, Drv.stepC18, Drv.stepC20]
+def steps : List Step := [Drv.stepC14, Drv.stepC18, Drv.stepC20, Drv.stepCodec, Drv.stepC06]
 
 def step (toks : List String) : String × String :=
   match steps.findSome? (fun f => f toks) with
